@@ -29,7 +29,12 @@ TRUSTED = ['Pass/Copy.v: `rename`, `val_rel`/`state_rel` (what "the same design 
            '"behaves identically" mean), `fingerprint`; Pass/CopyHeap.v: the heap model of object aliasing '
            '(`reach`, `hfingerprint`, edit alphabet `hedit`)',
            'py/checks/C11.py `fingerprint`: the attribute list observed on real blocks']
-ASSUMPTIONS = ['Python object aliasing is observed on the implementation only (id() sets, fingerprints before/after); '
+ASSUMPTIONS = ['optimize only (proviso of C04, inherited): the pass may replace a register whose next value is a compile-time '
+               'constant by that constant; a from-reset difference of the optimize result is NOT flagged when it disappears once '
+               'every register the pass eliminated (registers of the source with no counterpart in the result) starts out holding '
+               'the value it settles to; such cases are counted (optimize_constant_register_proviso); any other difference is a '
+               'violation; copy_block and synthesize are compared strictly',
+               'Python object aliasing is observed on the implementation only (id() sets, fingerprints before/after); '
                'the heap model proves disjointness => independence but is not itself tied to CPython',
                'ROM contents are compared tabulated over every address; mutation of a romdata container shared '
                'by the user, the source RomBlock and its copy is outside the edit alphabet (measured, not judged)',
@@ -244,6 +249,10 @@ def res_value(api, res_trace, w, t):
 def attribute(api, src, src_trace, res_trace, ncyc):
     """the first source net (dependency order, earliest cycle) whose arguments agree between source and
     result but whose destination does not: identifies WHICH rewrite is wrong"""
+    for c in sorted(src.wirevector_subset(pyrtl.Const), key=lambda w: w.name):
+        cv = res_value(api, res_trace, c, 0)
+        if cv is not None and cv != c.val:
+            return 'const', 'Const %s is %d in the source and %d in the result' % (c.name, c.val, cv)
     for t in range(ncyc):
         for n in src:
             if n.op in 'r@' or not n.dests:
@@ -265,6 +274,24 @@ def attribute(api, src, src_trace, res_trace, ncyc):
         if res_value(api, res_trace, r, 0) is None:
             return 'r', 'register %s has no counterpart in the result (folded away)' % r.name
     return '?', ''
+
+
+def constant_register_proviso(src, res, inputs, memmap_by_id, src_sim_mems):
+    """registers of the source with no counterpart in the optimize result = registers the pass eliminated.
+    Returns the source's traces when each of them starts out holding the value it settles to (its
+    compile-time constant), or None when the pass eliminated no register."""
+    regs = sorted((r for r in src.wirevector_subset(pyrtl.Register)
+                   if not isinstance(res.wirevector_by_name.get(r.name), pyrtl.Register)), key=lambda w: w.name)
+    if not regs:
+        return None
+    depth = len(src.wirevector_subset(pyrtl.Register)) + 1
+    warm = [inputs[t % len(inputs)] for t in range(depth + 1)]
+    _, wtr = simulate(src, warm, memmap_by_id, src_mems=src_sim_mems)
+    settled = {r: wtr.trace[r.name][depth] for r in regs}
+    _, ptr = simulate(src, inputs, memmap_by_id, regmap=settled, src_mems=src_sim_mems)
+    return {'regs': {r.name: v for r, v in settled.items()},
+            'trace_all': {nm: list(v) for nm, v in ptr.trace.items()},
+            'out_trace': out_trace(src, ptr, len(inputs))}
 
 
 # ---------------------------------------------------------------- edits
@@ -476,20 +503,36 @@ def check_one(ctx, i, api, scenario, src, memmap_by_id, inputs, base, chain=None
             except Exception:
                 explained = False
         bad = sorted(nm for nm in base['out_trace'] if res_trace.get(nm) != base['out_trace'][nm])
+        # C04's proviso, which C11's "behaviourally identical" inherits for optimize ONLY: the pass may
+        # replace a register whose next value is (transitively) a compile-time constant c by c; equivalence
+        # is required when every register the pass eliminates starts out holding that constant.
+        proviso = None
+        if not explained and api == 'optimize':
+            proviso = constant_register_proviso(src, res, inputs, memmap_by_id, src_sim_mems)
         if explained:
             viol('reset-value-dropped:%s' % api,
                  '%s(update_working_block=False): result differs from the source from reset because register '
                  'reset values were dropped (output %s: %s instead of %s)' % (
                      api, bad[0] if bad else '?', res_trace.get(bad[0]) if bad else None,
                      base['out_trace'].get(bad[0]) if bad else None), outputs=bad[:4])
+        elif proviso is not None and proviso['out_trace'] == res_trace:
+            ctx.count('optimize_constant_register_proviso', 'difference-explained-not-flagged')
+            ctx.count('optimize_eliminated_registers', len(proviso['regs']))
         else:
-            op, where = attribute(api, src, base['trace_all'], full_trace, ncyc)
+            ref_all, ref_out = base['trace_all'], base['out_trace']
+            extra = ''
+            if proviso is not None:
+                ref_all, ref_out = proviso['trace_all'], proviso['out_trace']
+                bad = sorted(nm for nm in ref_out if res_trace.get(nm) != ref_out[nm])
+                extra = (' even when the %d register(s) the pass eliminated (%s) start out holding their constant'
+                         % (len(proviso['regs']), ', '.join(sorted(proviso['regs']))[:80]))
+            op, where = attribute(api, src, ref_all, full_trace, ncyc)
             viol('result-behaviour-differs:%s:op=%s' % (api, op),
-                 'the result of %s(update_working_block=False) does not behave like the source from reset%s '
+                 'the result of %s(update_working_block=False) does not behave like the source from reset%s%s '
                  '(output %s: %s, source and reference semantics: %s); first wrong net: %s' % (
-                     api, ' even with the reset values re-supplied' if reset_dropped else '',
-                     bad[0] if bad else sorted(set(res_trace) ^ set(base['out_trace']))[:1],
-                     res_trace.get(bad[0]) if bad else None, base['out_trace'].get(bad[0]) if bad else None, where),
+                     api, ' even with the reset values re-supplied' if reset_dropped else '', extra,
+                     bad[0] if bad else sorted(set(res_trace) ^ set(ref_out))[:1],
+                     res_trace.get(bad[0]) if bad else None, ref_out.get(bad[0]) if bad else None, where),
                  outputs=bad[:4], culprit=where)
     return {'res': res, 'res_trace': res_trace, 'effective_reset_drop': bool(effective)}
 
@@ -570,7 +613,7 @@ def edit_phase(ctx, i, api, scenario, d, res, memmap_by_id, inputs, rep_base):
 # ---------------------------------------------------------------- driver
 
 def run(ctx, only=None):
-    ndesigns = 36 if ctx.tier == 'quick' else 400
+    ndesigns = 36 if ctx.tier == 'quick' else 250
     spec_exprs, spec_meta = [], []
     tie_exprs, tie_meta = [], []
     for i in (range(ndesigns) if only is None else [only]):
